@@ -105,7 +105,7 @@ Record thread : Type := mkT {
   th_ts : Z;
   th_insleep : bool;
   th_waitq : option nat;
-  th_joiner : option nat;
+  th_joiners : list nat;
   th_joinable : bool;
   th_ws : bool;
   th_lock : lockst;
@@ -120,27 +120,27 @@ Record thread : Type := mkT {
   g_joinret : nat;
   g_joinval : Z
 }.
-Definition set_th_state (r : thread) (x : tstate) : thread := mkT x (th_vcpu r) (th_kind r) (th_err r) (th_ts r) (th_insleep r) (th_waitq r) (th_joiner r) (th_joinable r) (th_ws r) (th_lock r) (th_retval r) (th_pc r) (th_k r) (th_claimed r) (th_fresh r) (g_started r) (g_finished r) (g_disposed r) (g_joinret r) (g_joinval r).
-Definition set_th_vcpu (r : thread) (x : nat) : thread := mkT (th_state r) x (th_kind r) (th_err r) (th_ts r) (th_insleep r) (th_waitq r) (th_joiner r) (th_joinable r) (th_ws r) (th_lock r) (th_retval r) (th_pc r) (th_k r) (th_claimed r) (th_fresh r) (g_started r) (g_finished r) (g_disposed r) (g_joinret r) (g_joinval r).
-Definition set_th_kind (r : thread) (x : kind) : thread := mkT (th_state r) (th_vcpu r) x (th_err r) (th_ts r) (th_insleep r) (th_waitq r) (th_joiner r) (th_joinable r) (th_ws r) (th_lock r) (th_retval r) (th_pc r) (th_k r) (th_claimed r) (th_fresh r) (g_started r) (g_finished r) (g_disposed r) (g_joinret r) (g_joinval r).
-Definition set_th_err (r : thread) (x : Z) : thread := mkT (th_state r) (th_vcpu r) (th_kind r) x (th_ts r) (th_insleep r) (th_waitq r) (th_joiner r) (th_joinable r) (th_ws r) (th_lock r) (th_retval r) (th_pc r) (th_k r) (th_claimed r) (th_fresh r) (g_started r) (g_finished r) (g_disposed r) (g_joinret r) (g_joinval r).
-Definition set_th_ts (r : thread) (x : Z) : thread := mkT (th_state r) (th_vcpu r) (th_kind r) (th_err r) x (th_insleep r) (th_waitq r) (th_joiner r) (th_joinable r) (th_ws r) (th_lock r) (th_retval r) (th_pc r) (th_k r) (th_claimed r) (th_fresh r) (g_started r) (g_finished r) (g_disposed r) (g_joinret r) (g_joinval r).
-Definition set_th_insleep (r : thread) (x : bool) : thread := mkT (th_state r) (th_vcpu r) (th_kind r) (th_err r) (th_ts r) x (th_waitq r) (th_joiner r) (th_joinable r) (th_ws r) (th_lock r) (th_retval r) (th_pc r) (th_k r) (th_claimed r) (th_fresh r) (g_started r) (g_finished r) (g_disposed r) (g_joinret r) (g_joinval r).
-Definition set_th_waitq (r : thread) (x : option nat) : thread := mkT (th_state r) (th_vcpu r) (th_kind r) (th_err r) (th_ts r) (th_insleep r) x (th_joiner r) (th_joinable r) (th_ws r) (th_lock r) (th_retval r) (th_pc r) (th_k r) (th_claimed r) (th_fresh r) (g_started r) (g_finished r) (g_disposed r) (g_joinret r) (g_joinval r).
-Definition set_th_joiner (r : thread) (x : option nat) : thread := mkT (th_state r) (th_vcpu r) (th_kind r) (th_err r) (th_ts r) (th_insleep r) (th_waitq r) x (th_joinable r) (th_ws r) (th_lock r) (th_retval r) (th_pc r) (th_k r) (th_claimed r) (th_fresh r) (g_started r) (g_finished r) (g_disposed r) (g_joinret r) (g_joinval r).
-Definition set_th_joinable (r : thread) (x : bool) : thread := mkT (th_state r) (th_vcpu r) (th_kind r) (th_err r) (th_ts r) (th_insleep r) (th_waitq r) (th_joiner r) x (th_ws r) (th_lock r) (th_retval r) (th_pc r) (th_k r) (th_claimed r) (th_fresh r) (g_started r) (g_finished r) (g_disposed r) (g_joinret r) (g_joinval r).
-Definition set_th_ws (r : thread) (x : bool) : thread := mkT (th_state r) (th_vcpu r) (th_kind r) (th_err r) (th_ts r) (th_insleep r) (th_waitq r) (th_joiner r) (th_joinable r) x (th_lock r) (th_retval r) (th_pc r) (th_k r) (th_claimed r) (th_fresh r) (g_started r) (g_finished r) (g_disposed r) (g_joinret r) (g_joinval r).
-Definition set_th_lock (r : thread) (x : lockst) : thread := mkT (th_state r) (th_vcpu r) (th_kind r) (th_err r) (th_ts r) (th_insleep r) (th_waitq r) (th_joiner r) (th_joinable r) (th_ws r) x (th_retval r) (th_pc r) (th_k r) (th_claimed r) (th_fresh r) (g_started r) (g_finished r) (g_disposed r) (g_joinret r) (g_joinval r).
-Definition set_th_retval (r : thread) (x : Z) : thread := mkT (th_state r) (th_vcpu r) (th_kind r) (th_err r) (th_ts r) (th_insleep r) (th_waitq r) (th_joiner r) (th_joinable r) (th_ws r) (th_lock r) x (th_pc r) (th_k r) (th_claimed r) (th_fresh r) (g_started r) (g_finished r) (g_disposed r) (g_joinret r) (g_joinval r).
-Definition set_th_pc (r : thread) (x : nat) : thread := mkT (th_state r) (th_vcpu r) (th_kind r) (th_err r) (th_ts r) (th_insleep r) (th_waitq r) (th_joiner r) (th_joinable r) (th_ws r) (th_lock r) (th_retval r) x (th_k r) (th_claimed r) (th_fresh r) (g_started r) (g_finished r) (g_disposed r) (g_joinret r) (g_joinval r).
-Definition set_th_k (r : thread) (x : nat) : thread := mkT (th_state r) (th_vcpu r) (th_kind r) (th_err r) (th_ts r) (th_insleep r) (th_waitq r) (th_joiner r) (th_joinable r) (th_ws r) (th_lock r) (th_retval r) (th_pc r) x (th_claimed r) (th_fresh r) (g_started r) (g_finished r) (g_disposed r) (g_joinret r) (g_joinval r).
-Definition set_th_claimed (r : thread) (x : bool) : thread := mkT (th_state r) (th_vcpu r) (th_kind r) (th_err r) (th_ts r) (th_insleep r) (th_waitq r) (th_joiner r) (th_joinable r) (th_ws r) (th_lock r) (th_retval r) (th_pc r) (th_k r) x (th_fresh r) (g_started r) (g_finished r) (g_disposed r) (g_joinret r) (g_joinval r).
-Definition set_th_fresh (r : thread) (x : bool) : thread := mkT (th_state r) (th_vcpu r) (th_kind r) (th_err r) (th_ts r) (th_insleep r) (th_waitq r) (th_joiner r) (th_joinable r) (th_ws r) (th_lock r) (th_retval r) (th_pc r) (th_k r) (th_claimed r) x (g_started r) (g_finished r) (g_disposed r) (g_joinret r) (g_joinval r).
-Definition set_g_started (r : thread) (x : nat) : thread := mkT (th_state r) (th_vcpu r) (th_kind r) (th_err r) (th_ts r) (th_insleep r) (th_waitq r) (th_joiner r) (th_joinable r) (th_ws r) (th_lock r) (th_retval r) (th_pc r) (th_k r) (th_claimed r) (th_fresh r) x (g_finished r) (g_disposed r) (g_joinret r) (g_joinval r).
-Definition set_g_finished (r : thread) (x : nat) : thread := mkT (th_state r) (th_vcpu r) (th_kind r) (th_err r) (th_ts r) (th_insleep r) (th_waitq r) (th_joiner r) (th_joinable r) (th_ws r) (th_lock r) (th_retval r) (th_pc r) (th_k r) (th_claimed r) (th_fresh r) (g_started r) x (g_disposed r) (g_joinret r) (g_joinval r).
-Definition set_g_disposed (r : thread) (x : nat) : thread := mkT (th_state r) (th_vcpu r) (th_kind r) (th_err r) (th_ts r) (th_insleep r) (th_waitq r) (th_joiner r) (th_joinable r) (th_ws r) (th_lock r) (th_retval r) (th_pc r) (th_k r) (th_claimed r) (th_fresh r) (g_started r) (g_finished r) x (g_joinret r) (g_joinval r).
-Definition set_g_joinret (r : thread) (x : nat) : thread := mkT (th_state r) (th_vcpu r) (th_kind r) (th_err r) (th_ts r) (th_insleep r) (th_waitq r) (th_joiner r) (th_joinable r) (th_ws r) (th_lock r) (th_retval r) (th_pc r) (th_k r) (th_claimed r) (th_fresh r) (g_started r) (g_finished r) (g_disposed r) x (g_joinval r).
-Definition set_g_joinval (r : thread) (x : Z) : thread := mkT (th_state r) (th_vcpu r) (th_kind r) (th_err r) (th_ts r) (th_insleep r) (th_waitq r) (th_joiner r) (th_joinable r) (th_ws r) (th_lock r) (th_retval r) (th_pc r) (th_k r) (th_claimed r) (th_fresh r) (g_started r) (g_finished r) (g_disposed r) (g_joinret r) x.
+Definition set_th_state (r : thread) (x : tstate) : thread := mkT x (th_vcpu r) (th_kind r) (th_err r) (th_ts r) (th_insleep r) (th_waitq r) (th_joiners r) (th_joinable r) (th_ws r) (th_lock r) (th_retval r) (th_pc r) (th_k r) (th_claimed r) (th_fresh r) (g_started r) (g_finished r) (g_disposed r) (g_joinret r) (g_joinval r).
+Definition set_th_vcpu (r : thread) (x : nat) : thread := mkT (th_state r) x (th_kind r) (th_err r) (th_ts r) (th_insleep r) (th_waitq r) (th_joiners r) (th_joinable r) (th_ws r) (th_lock r) (th_retval r) (th_pc r) (th_k r) (th_claimed r) (th_fresh r) (g_started r) (g_finished r) (g_disposed r) (g_joinret r) (g_joinval r).
+Definition set_th_kind (r : thread) (x : kind) : thread := mkT (th_state r) (th_vcpu r) x (th_err r) (th_ts r) (th_insleep r) (th_waitq r) (th_joiners r) (th_joinable r) (th_ws r) (th_lock r) (th_retval r) (th_pc r) (th_k r) (th_claimed r) (th_fresh r) (g_started r) (g_finished r) (g_disposed r) (g_joinret r) (g_joinval r).
+Definition set_th_err (r : thread) (x : Z) : thread := mkT (th_state r) (th_vcpu r) (th_kind r) x (th_ts r) (th_insleep r) (th_waitq r) (th_joiners r) (th_joinable r) (th_ws r) (th_lock r) (th_retval r) (th_pc r) (th_k r) (th_claimed r) (th_fresh r) (g_started r) (g_finished r) (g_disposed r) (g_joinret r) (g_joinval r).
+Definition set_th_ts (r : thread) (x : Z) : thread := mkT (th_state r) (th_vcpu r) (th_kind r) (th_err r) x (th_insleep r) (th_waitq r) (th_joiners r) (th_joinable r) (th_ws r) (th_lock r) (th_retval r) (th_pc r) (th_k r) (th_claimed r) (th_fresh r) (g_started r) (g_finished r) (g_disposed r) (g_joinret r) (g_joinval r).
+Definition set_th_insleep (r : thread) (x : bool) : thread := mkT (th_state r) (th_vcpu r) (th_kind r) (th_err r) (th_ts r) x (th_waitq r) (th_joiners r) (th_joinable r) (th_ws r) (th_lock r) (th_retval r) (th_pc r) (th_k r) (th_claimed r) (th_fresh r) (g_started r) (g_finished r) (g_disposed r) (g_joinret r) (g_joinval r).
+Definition set_th_waitq (r : thread) (x : option nat) : thread := mkT (th_state r) (th_vcpu r) (th_kind r) (th_err r) (th_ts r) (th_insleep r) x (th_joiners r) (th_joinable r) (th_ws r) (th_lock r) (th_retval r) (th_pc r) (th_k r) (th_claimed r) (th_fresh r) (g_started r) (g_finished r) (g_disposed r) (g_joinret r) (g_joinval r).
+Definition set_th_joiners (r : thread) (x : list nat) : thread := mkT (th_state r) (th_vcpu r) (th_kind r) (th_err r) (th_ts r) (th_insleep r) (th_waitq r) x (th_joinable r) (th_ws r) (th_lock r) (th_retval r) (th_pc r) (th_k r) (th_claimed r) (th_fresh r) (g_started r) (g_finished r) (g_disposed r) (g_joinret r) (g_joinval r).
+Definition set_th_joinable (r : thread) (x : bool) : thread := mkT (th_state r) (th_vcpu r) (th_kind r) (th_err r) (th_ts r) (th_insleep r) (th_waitq r) (th_joiners r) x (th_ws r) (th_lock r) (th_retval r) (th_pc r) (th_k r) (th_claimed r) (th_fresh r) (g_started r) (g_finished r) (g_disposed r) (g_joinret r) (g_joinval r).
+Definition set_th_ws (r : thread) (x : bool) : thread := mkT (th_state r) (th_vcpu r) (th_kind r) (th_err r) (th_ts r) (th_insleep r) (th_waitq r) (th_joiners r) (th_joinable r) x (th_lock r) (th_retval r) (th_pc r) (th_k r) (th_claimed r) (th_fresh r) (g_started r) (g_finished r) (g_disposed r) (g_joinret r) (g_joinval r).
+Definition set_th_lock (r : thread) (x : lockst) : thread := mkT (th_state r) (th_vcpu r) (th_kind r) (th_err r) (th_ts r) (th_insleep r) (th_waitq r) (th_joiners r) (th_joinable r) (th_ws r) x (th_retval r) (th_pc r) (th_k r) (th_claimed r) (th_fresh r) (g_started r) (g_finished r) (g_disposed r) (g_joinret r) (g_joinval r).
+Definition set_th_retval (r : thread) (x : Z) : thread := mkT (th_state r) (th_vcpu r) (th_kind r) (th_err r) (th_ts r) (th_insleep r) (th_waitq r) (th_joiners r) (th_joinable r) (th_ws r) (th_lock r) x (th_pc r) (th_k r) (th_claimed r) (th_fresh r) (g_started r) (g_finished r) (g_disposed r) (g_joinret r) (g_joinval r).
+Definition set_th_pc (r : thread) (x : nat) : thread := mkT (th_state r) (th_vcpu r) (th_kind r) (th_err r) (th_ts r) (th_insleep r) (th_waitq r) (th_joiners r) (th_joinable r) (th_ws r) (th_lock r) (th_retval r) x (th_k r) (th_claimed r) (th_fresh r) (g_started r) (g_finished r) (g_disposed r) (g_joinret r) (g_joinval r).
+Definition set_th_k (r : thread) (x : nat) : thread := mkT (th_state r) (th_vcpu r) (th_kind r) (th_err r) (th_ts r) (th_insleep r) (th_waitq r) (th_joiners r) (th_joinable r) (th_ws r) (th_lock r) (th_retval r) (th_pc r) x (th_claimed r) (th_fresh r) (g_started r) (g_finished r) (g_disposed r) (g_joinret r) (g_joinval r).
+Definition set_th_claimed (r : thread) (x : bool) : thread := mkT (th_state r) (th_vcpu r) (th_kind r) (th_err r) (th_ts r) (th_insleep r) (th_waitq r) (th_joiners r) (th_joinable r) (th_ws r) (th_lock r) (th_retval r) (th_pc r) (th_k r) x (th_fresh r) (g_started r) (g_finished r) (g_disposed r) (g_joinret r) (g_joinval r).
+Definition set_th_fresh (r : thread) (x : bool) : thread := mkT (th_state r) (th_vcpu r) (th_kind r) (th_err r) (th_ts r) (th_insleep r) (th_waitq r) (th_joiners r) (th_joinable r) (th_ws r) (th_lock r) (th_retval r) (th_pc r) (th_k r) (th_claimed r) x (g_started r) (g_finished r) (g_disposed r) (g_joinret r) (g_joinval r).
+Definition set_g_started (r : thread) (x : nat) : thread := mkT (th_state r) (th_vcpu r) (th_kind r) (th_err r) (th_ts r) (th_insleep r) (th_waitq r) (th_joiners r) (th_joinable r) (th_ws r) (th_lock r) (th_retval r) (th_pc r) (th_k r) (th_claimed r) (th_fresh r) x (g_finished r) (g_disposed r) (g_joinret r) (g_joinval r).
+Definition set_g_finished (r : thread) (x : nat) : thread := mkT (th_state r) (th_vcpu r) (th_kind r) (th_err r) (th_ts r) (th_insleep r) (th_waitq r) (th_joiners r) (th_joinable r) (th_ws r) (th_lock r) (th_retval r) (th_pc r) (th_k r) (th_claimed r) (th_fresh r) (g_started r) x (g_disposed r) (g_joinret r) (g_joinval r).
+Definition set_g_disposed (r : thread) (x : nat) : thread := mkT (th_state r) (th_vcpu r) (th_kind r) (th_err r) (th_ts r) (th_insleep r) (th_waitq r) (th_joiners r) (th_joinable r) (th_ws r) (th_lock r) (th_retval r) (th_pc r) (th_k r) (th_claimed r) (th_fresh r) (g_started r) (g_finished r) x (g_joinret r) (g_joinval r).
+Definition set_g_joinret (r : thread) (x : nat) : thread := mkT (th_state r) (th_vcpu r) (th_kind r) (th_err r) (th_ts r) (th_insleep r) (th_waitq r) (th_joiners r) (th_joinable r) (th_ws r) (th_lock r) (th_retval r) (th_pc r) (th_k r) (th_claimed r) (th_fresh r) (g_started r) (g_finished r) (g_disposed r) x (g_joinval r).
+Definition set_g_joinval (r : thread) (x : Z) : thread := mkT (th_state r) (th_vcpu r) (th_kind r) (th_err r) (th_ts r) (th_insleep r) (th_waitq r) (th_joiners r) (th_joinable r) (th_ws r) (th_lock r) (th_retval r) (th_pc r) (th_k r) (th_claimed r) (th_fresh r) (g_started r) (g_finished r) (g_disposed r) (g_joinret r) x.
 
 Record vcpu : Type := mkV {
   v_runq : list nat;
@@ -182,7 +182,7 @@ Definition updp {A : Type} (f : nat -> A) (k : nat) (v : A) : nat -> A :=
   fun x => if Nat.eqb x k then v else f x.
 
 Definition thread0 : thread :=
-  mkT NOTCREATED 0 KUser 0 0 false None None false false LFree 0 0 0 false true 0 0 0 0 0.
+  mkT NOTCREATED 0 KUser 0 0 false None [] false false LFree 0 0 0 false true 0 0 0 0 0.
 Definition vcpu0 : vcpu := mkV [] [] [] 0 PNone false false.
 
 (* ---- list helpers ----------------------------------------------------------------------- *)
@@ -226,10 +226,13 @@ Section RUN.
   (* the test harness may pass thread k to the photon API (harness/E2 Env::alive): it has been
      created and its `thread` object still exists *)
   Definition finished_h (s : state) (k : tid) : bool := Nat.leb (length (progs k)) (th_pc (getth s k)).
+  (* the harness marks a thread finished when its entry function is about to return; T0 (a main thread)
+     parks instead and stays a valid target *)
+  Definition finished_a (s : state) (k : tid) : bool := is_user (th_kind (getth s k)) && finished_h s k.
   Definition alive (s : state) (k : tid) : bool :=
     let th := getth s k in
     Nat.ltb k (s_n s) && negb (tstate_eqb (th_state th) NOTCREATED) &&
-    (negb (finished_h s k) || (th_joinable th && Nat.eqb (g_joinret th) 0)).
+    (negb (finished_a s k) || (th_joinable th && Nat.eqb (g_joinret th) 0)).
 
   (* the thread whose stack vCPU v is physically executing on: until the pending part of a switch
      has run this is still the OLD thread *)
@@ -250,8 +253,8 @@ Section RUN.
   Definition do_yield (s : state) (v : nat) (clear_err : bool) (d : deferred) : state :=
     match v_runq (getvc s v) with
     | c :: n :: rest =>
-        let s1 := modth s c (fun th => set_th_state (if clear_err then set_th_err th 0 else th) READY) in
-        let s2 := switch_in s1 n in
+        let s1 := switch_in s n in
+        let s2 := modth s1 c (fun th => set_th_state (if clear_err then set_th_err th 0 else th) READY) in
         modvc s2 v (fun x => set_v_pend (set_v_runq x (n :: rest ++ [c])) (PSwitch c d))
     | _ => stuck s
     end.
@@ -260,9 +263,9 @@ Section RUN.
   Definition do_sleep (s : state) (v : nat) (exp : Z) (wq : option tid) (d : deferred) : state :=
     match v_runq (getvc s v) with
     | c :: n :: rest =>
-        let s1 := modth s c (fun th => set_th_waitq (set_th_ts (set_th_insleep (set_th_state th SLEEPING) true) exp) wq) in
-        let s2 := match wq with Some x => modth s1 x (fun th => set_th_joiner th (Some c)) | None => s1 end in
-        let s3 := switch_in s2 n in
+        let s1 := switch_in s n in
+        let s2 := modth s1 c (fun th => set_th_waitq (set_th_ts (set_th_insleep (set_th_state th SLEEPING) true) exp) wq) in
+        let s3 := match wq with Some x => modth s2 x (fun th => set_th_joiners th (th_joiners th ++ [c])) | None => s2 end in
         let tie := (exp <? MAX64) && has_ts (ts_of s3) exp (v_sleepq (getvc s3 v)) in
         let s4 := modvc s3 v (fun x => set_v_pend (set_v_sleepq (set_v_runq x (n :: rest))
                                                     (ins_sorted (ts_of s3) c (v_sleepq x))) (PSwitch c d)) in
@@ -273,7 +276,7 @@ Section RUN.
   (* thread::dequeue_ready_atomic (724-736): leave the wait queue *)
   Definition dequeue (s : state) (t : tid) : state :=
     match th_waitq (getth s t) with
-    | Some x => modth (modth s x (fun th => set_th_joiner th None)) t (fun th => set_th_waitq th None)
+    | Some x => modth (modth s x (fun th => set_th_joiners th (remove_tid t (th_joiners th)))) t (fun th => set_th_waitq th None)
     | None => s
     end.
 
@@ -299,7 +302,7 @@ Section RUN.
 
   (* thread_create (1040-1084) *)
   Definition do_create (s : state) (v : nat) (k : tid) (jn ws : bool) : state :=
-    let th := mkT READY v KUser 0 0 false None None jn ws LFree 0 0 0 false true 0 0 0 0 0 in
+    let th := mkT READY v KUser 0 0 false None [] jn ws LFree 0 0 0 false true 0 0 0 0 0 in
     let s1 := set_s_th s (updp (s_th s) k th) in
     modvc s1 v (fun x => set_v_nthreads (set_v_runq x (v_runq x ++ [k])) (v_nthreads x + 1)).
 
@@ -309,12 +312,14 @@ Section RUN.
     | c :: n :: rest =>
         let th := getth s c in
         let ok := lock_free (th_lock th) &&
-                  match th_joiner th with Some j => lock_free (th_lock (getth s j)) | None => true end in
+                  match th_joiners th with j :: _ => lock_free (th_lock (getth s j)) | [] => true end in
         if negb ok then None else
-        let s1 := modth s c (fun x => set_g_finished (set_th_retval (set_th_state (set_th_lock x LSelf) DONE) retval)
+        (* one block under thread.lock; the sub-steps touch different threads, listed here in an order
+           in which every intermediate state is well formed: cond.notify_one, the switch, DONE + leave *)
+        let s1 := match th_joiners th with j :: _ => wake s v j (-1) | [] => s end in
+        let s2 := switch_in s1 n in
+        let s3 := modth s2 c (fun x => set_g_finished (set_th_retval (set_th_state (set_th_lock x LSelf) DONE) retval)
                                                      (S (g_finished x))) in
-        let s2 := match th_joiner th with Some j => wake s1 v j (-1) | None => s1 end in      (* cond.notify_one *)
-        let s3 := switch_in s2 n in
         Some (modvc s3 v (fun x => set_v_pend (set_v_nthreads (set_v_runq x (remove_tid c (v_runq x))) (v_nthreads x - 1)) (PDie c)))
     | _ => Some (stuck s)
     end.
@@ -367,6 +372,7 @@ Section RUN.
   (* thread_join (1544-1557): lock; DONE -> retval + dispose; else cond.wait(lock) *)
   Definition join_check (s : state) (v : nat) (c j : tid) : state :=
     let tj := getth s j in
+    if tstate_eqb (th_state tj) NOTCREATED then stuck s else                       (* no such thread: undefined in C++ *)
     if negb (lock_free (th_lock tj)) then s else                                   (* spin *)
     if tstate_eqb (th_state tj) DONE then
       let s1 := modth s j (fun x => set_g_joinval (set_g_joinret (set_g_disposed (set_th_lock x LJoin) (S (g_disposed x)))
@@ -471,17 +477,17 @@ Section RUN.
 
   (* resume_threads_inlined, standby part (1270-1278): the whole standby queue becomes READY,
      leaves the sleep queue, and is appended to the run queue (1299-1302) *)
+  Definition drain_one (s : state) (v : nat) (t : tid) : state :=
+    if negb (mem_tid t (v_standby (getvc s v))) then s else
+    let s1 := modth s t (fun th => set_th_insleep (set_th_state th READY) false) in
+    modvc s1 v (fun x => set_v_runq (set_v_sleepq (set_v_standby x (remove_tid t (v_standby x)))
+                                                  (remove_tid t (v_sleepq x))) (v_runq x ++ [t])).
   Fixpoint drain_list (s : state) (v : nat) (l : list tid) : state :=
     match l with
     | [] => s
-    | t :: r =>
-        let s1 := modth s t (fun th => set_th_insleep (set_th_state th READY) false) in
-        drain_list (modvc s1 v (fun x => set_v_sleepq x (remove_tid t (v_sleepq x)))) v r
+    | t :: r => drain_list (drain_one s v t) v r
     end.
-  Definition do_drain (s : state) (v : nat) : state :=
-    let sb := v_standby (getvc s v) in
-    let s1 := drain_list (modvc s v (fun x => set_v_standby x [])) v sb in
-    modvc s1 v (fun x => set_v_runq x (v_runq x ++ sb)).
+  Definition do_drain (s : state) (v : nat) : state := drain_list s v (v_standby (getvc s v)).
 
   (* resume_threads_inlined, one iteration of the expiry loop (1284-1298) *)
   Definition do_resume (s : state) (v : nat) : state :=
@@ -491,11 +497,13 @@ Section RUN.
         let th := getth s t in
         if s_now s <? th_ts th then s else
         if negb (lock_free (th_lock th)) then s else
-        let s1 := modvc (modth s t (fun x => set_th_insleep x false)) v (fun x => set_v_sleepq x rest) in
         if tstate_eqb (th_state th) SLEEPING then
-          let s2 := modth (dequeue s1 t) t (fun x => set_th_state x READY) in
-          modvc s2 v (fun x => set_v_runq x (v_runq x ++ [t]))
-        else s1
+          let s1 := dequeue s t in
+          let s2 := modth s1 t (fun x => set_th_insleep (set_th_state x READY) false) in
+          modvc s2 v (fun x => set_v_runq (set_v_sleepq x (remove_tid t (v_sleepq x))) (v_runq x ++ [t]))
+        else
+          (* interrupted from another vCPU after the standby pass: it stays in the standby queue *)
+          modvc (modth s t (fun x => set_th_insleep x false)) v (fun x => set_v_sleepq x (remove_tid t (v_sleepq x)))
     end.
 
   (* ws_scan_q / ws_scan_standbyq (2002-2063), one thread *)
@@ -530,9 +538,9 @@ Section RUN.
 
   (* ---- initial state: nv vCPUs after vcpu_init (2230-2258), n program threads ---------------- *)
   Definition init_thread (nv n : nat) (t : tid) : thread :=
-    if Nat.ltb t nv then mkT RUNNING t KMain 0 0 false None None false false LFree 0 0 0 false false 1 0 0 0 0
+    if Nat.ltb t nv then mkT RUNNING t KMain 0 0 false None [] false false LFree 0 0 0 false false 1 0 0 0 0
     else if Nat.leb n t && Nat.ltb t (n + nv)
-    then mkT READY (t - n) KIdler 0 0 false None None true false LFree 0 0 0 false true 0 0 0 0 0
+    then mkT READY (t - n) KIdler 0 0 false None [] true false LFree 0 0 0 false true 0 0 0 0 0
     else thread0.
   Definition init_vcpu (nv n : nat) (flags : nat -> bool * bool) (v : nat) : vcpu :=
     if Nat.ltb v nv then mkV [v; (n + v)%nat] [] [] 2 PNone (fst (flags v)) (snd (flags v)) else vcpu0.
